@@ -378,6 +378,90 @@ def o2_pools(chk, prog):
     chk.end(ob)
 
 
+def o5_admin_reload(chk, prog):
+    """The admin console's RELOAD: handle_admin runs reload_config once, and claims success only if it succeeded."""
+    from mirsym.models.util import ok as _ok, err as _err
+    ob = chk.begin('O5-admin-reload', 'admin::handle_admin (real coroutine) on RELOAD (several spellings) with reload_config succeeding (changed / unchanged) or failing (solver\'s choice): '
+                   'reload_config runs exactly once, with the cancel map the console was given; CommandComplete RELOAD + ReadyForQuery is sent iff it succeeded; a failure is '
+                   'returned to the caller and not reported as success; other commands do not reload', {})
+    ha = prog.funcs.get('handle_admin')
+    if ha is None:
+        raise Inconclusive('cannot locate admin::handle_admin')
+    ip = chk.interp(prog, 'O5-admin-reload')
+    install_stats_noops(ip)
+    base = list(ip.overrides)
+    cases = [(b'RELOAD', True), (b'reload;', True), (b'  Reload ', True), (b'SET x TO 1', False)]
+
+    def harness(ip_):
+        ip_.overrides[:] = base
+        q, is_reload = cases[ip_.choose(len(cases), 'admin_command')]
+        calls = []
+        csm = Ptr(Cell(Agg([MapV('hashmap')], 'Lock'), 'csmap'))
+        outcome = {}
+
+        def reload_config(c, m):
+            calls.append(m)
+            return Opaque('HookFuture', 'reload')
+
+        def poll_hook(ip2, co, ptr):
+            if isinstance(co, Opaque) and co.ty == 'HookFuture' and co.tag == 'reload':
+                k = ip2.choose(3, 'reload_outcome')
+                outcome['k'] = k
+                r_ = _err(ip2, ip2.make_enum('Error', 'BadConfig')) if k == 2 else _ok(ip2, BV(1, k))
+                return EnumV(BV(64, 0), {'Ready': [r_]}, 'Poll')
+            raise Inconclusive('poll of %r' % (co,))
+        ip_.poll_hook = poll_hook
+        ip_.overrides[:0] = [
+            (re.compile(r'^(?:config::)?reload_config$'), reload_config),
+            (re.compile(r'^(?:config::)?get_config$'), lambda c: Opaque('Config', 'current')),
+            (re.compile(r'Config::show$'), lambda c, *a: unit()),
+        ]
+        st = StreamV([], 'admin_client')
+        body = [BV(8, x) for x in b'Q' + (len(q) + 5).to_bytes(4, 'big') + q + b'\0']
+        try:
+            r = ip_.drive(ip_.call_function(ha, [Ptr(Cell(st, 'stream')), Seq(body, 'bytesmut'), csm]))
+        except Panic as p:
+            raise Inconclusive('handle_admin panic: ' + p.msg)
+        ob.nontrivial += 1
+        out = bytes(b.v for b in st.out if b.concrete)
+        res = variant(ip_, r, 'Result')
+        what = None
+        if not is_reload:
+            if calls:
+                what = 'the admin command %r reloads the configuration' % (q.decode(),)
+        elif len(calls) != 1:
+            what = 'RELOAD runs reload_config %d times' % len(calls)
+        elif not (isinstance(calls[0], Ptr) and calls[0].cell is csm.cell):
+            what = 'RELOAD rebuilds the pools with a cancel map that is not the one in use'
+        elif outcome.get('k') == 2 and (res == 'Ok' or b'RELOAD\x00' in out):
+            what = 'reload_config failed (invalid file) and the admin console reports success (result %s, reply %r)' % (res, out[:40])
+        elif outcome.get('k') in (0, 1) and (res != 'Ok' or b'RELOAD\x00' not in out or not out.endswith(b'Z\x00\x00\x00\x05I')):
+            what = 'reload_config succeeded and the admin client is not answered with CommandComplete RELOAD + ReadyForQuery'
+        if what:
+            chk.report(ob, 'C14/O5/admin-reload', 'admin console: ' + what, {'command': q.decode()}, {'commands': [{'op': 'admin_reload'}], 'expect': ['c14_admin_reload']})
+        if len(ob.samples) < 3:
+            ob.samples.append({'command': q.decode(), 'reload_config_calls': len(calls), 'outcome': outcome.get('k'), 'result': res})
+    ip.explore(harness)
+    chk.absorb(ob, ip)
+    chk.end(ob)
+
+
+@expectation('c14_admin_reload')
+def c14_admin_reload():
+    """Native: the real handle_admin on RELOAD with the file unchanged, then invalid: success is claimed iff the reload succeeded."""
+    def f(res):
+        for r in res:
+            if 'error' in r or 'panic' in r:
+                return False, 'native: %r' % (r,)
+            for run in r.get('runs', []):
+                want = run['kind'] == 'same'
+                if run['ok'] != want or run['says_reload'] != want:
+                    return True, 'native: RELOAD with the file %s: handle_admin returns %s and %s CommandComplete RELOAD' % (
+                        'unchanged' if want else 'INVALID', 'Ok' if run['ok'] else 'Err', 'sends' if run['says_reload'] else 'does not send')
+        return False, 'native: %r' % (res,)
+    return f
+
+
 def o2_rebuild(chk, prog, variant, props=('C14',)):
     """What a pool that a reload (re)creates may share with the pool it replaces and with its siblings.
     variant 'auth-query': auth_query is configured (its lookup fails or succeeds: solver's choice) -- an unchanged pool is still kept.
@@ -668,7 +752,7 @@ def main(chk):
         '(O3) What counts as "the definition changed": the PartialEq impls behind `old_config != new_config` and the Hash impls behind '
         'Pool::hash_value are executed from MIR for every struct of the configuration tree, on pairs of values that differ in exactly one field: '
         'no field may be left out of either. (O2-rebuild) what a pool kept or re-created by a reload shares with its predecessor and its siblings: an unchanged pool is kept also under auth_query; '
-        'a re-created pool has its own ban list shaped after the NEW definition; two users of a section have separate auth_hash cells. (O4) SIGHUP: the select! loop of src/main.rs, from the MIR of the binary target, under event scripts that '
+        'a re-created pool has its own ban list shaped after the NEW definition; two users of a section have separate auth_hash cells. (O5) the admin console\'s RELOAD: handle_admin runs reload_config once and claims success iff it succeeded. (O4) SIGHUP: the select! loop of src/main.rs, from the MIR of the binary target, under event scripts that '
         'contain SIGHUPs: each one calls reload_config exactly once and does not end the loop (native replay: the real binary, the file rewritten before the signal, '
         'a login only the new file allows).')
     chk.assumptions += [
@@ -689,6 +773,10 @@ def main(chk):
     o2_pools(chk, prog)
     for variant in ('auth-query', 'grow', 'swap', 'two-users'):
         o2_rebuild(chk, prog, variant)
+    try:
+        o5_admin_reload(chk, prog)
+    except Inconclusive as e:
+        chk.note_inconclusive('O5-admin-reload: %s' % e)
     o3_identity(chk, prog, POOL_TREE + ['Config', 'General'])
     # a file that validation ACCEPTS is stored before the pools are rebuilt: if building them then fails the reload is half applied (new CONFIG,
     # old pools) -- so what validation accepts must be buildable.  The C15 build obligation (real Pool::validate, then the real from_config) for
